@@ -130,6 +130,15 @@ pub trait NonPrimitiveExecutor<F: Field>: Debug {
         None
     }
 
+    /// Input witnesses that this op's table *creates* on the `WitnessChecks` bus when they
+    /// are hint outputs (e.g. the coefficient inputs of `recompose/coeff`).
+    ///
+    /// Preprocessing marks them as defined after this op, so later table rows that use them
+    /// become readers and are counted in the multiplicity this table sends them with.
+    fn created_input_witnesses(&self, _inputs: &[Vec<WitnessId>]) -> Vec<WitnessId> {
+        Vec::new()
+    }
+
     /// Clone as trait object
     fn boxed(&self) -> Box<dyn NonPrimitiveExecutor<F>>;
 }
